@@ -26,6 +26,10 @@
 //      | ["x",inst,serial]                                    destructor
 //   key = the `cgroup` argument the object was initialised with ("-" if none), target = ActionContext.target_cgroup
 #include "common.h"
+
+#include <algorithm>
+
+#include "oomd/util/PluginArgParser.h"
 #include "vclock.h"
 
 #include <dirent.h>
@@ -125,7 +129,7 @@ class Scripted : public Engine::BasePlugin {
     e.append(serial_);
     g_events->append(e);
   }
-  int init(const Engine::PluginArgs& args, const PluginConstructionContext&) override {
+  int init(const Engine::PluginArgs& args, const PluginConstructionContext& pcc) override {
     auto it = args.find("inst");
     if (it == args.end()) return 1;
     inst_ = std::stoi(it->second);
@@ -137,6 +141,18 @@ class Scripted : public Engine::BasePlugin {
       e.append(inst_);
       e.append(serial_);
       e.append(key_);
+      // what the argument names when it is read the way every core plugin reads it (PluginArgParser::parseCgroup, then
+      // resolveWildcard on each pattern) - the cgroups this plugin object would act on right now
+      Json::Value res(Json::arrayValue);
+      if (c != args.end()) {
+        std::vector<std::string> rel;
+        for (const auto& pat : PluginArgParser::parseCgroup(pcc, c->second))
+          for (const auto& r : pat.resolveWildcard()) rel.push_back(r.relativePath());
+        std::sort(rel.begin(), rel.end());
+        rel.erase(std::unique(rel.begin(), rel.end()), rel.end());
+        for (auto& r : rel) res.append(r);
+      }
+      e.append(res);
       g_events->append(e);
     }
     return 0;
